@@ -11,6 +11,8 @@ import KoordVerif.Proofs.C06ExtTakeGen
 import KoordVerif.Proofs.C06ExtTake
 import KoordVerif.Proofs.C06ExtAmpBind
 import KoordVerif.Proofs.C06ExtNumaDrawn
+import KoordVerif.Proofs.C06ExtEvents
+import KoordVerif.Proofs.C06ExtGoc
 /-
 C06 — CPU and NUMA allocations are exact, disjoint and within capacity.
 
@@ -680,5 +682,144 @@ example :
 example : TopoNodup { topo := (List.range 24).map fun c => { cpu := c, core := c / 2, node := c / 8, socket := c / 8 },
                       cpc := 2, cpn := 8, cps := 8, maxRef := 1, excl := 1, most := true } := by
   unfold TopoNodup; decide
+
+/-! ## Informer glue (round 3): events → ledger -/
+
+/-- **terminal_update_releases**: an OnUpdate whose new object is assigned to a node and has phase Succeeded / Failed is
+    decoded to exactly `Release(node, uid)` - whatever the old object was (in particular when nothing but the status
+    changed) - after which the pod is recorded nowhere on that node, and no other pod's record moved.  (updatePod is the
+    only place that releases a completed pod; skipping status-only updates keeps a finished Job pod's CPUs forever.) -/
+theorem terminal_update_releases (M : Mgr) (old new : PodObj) (hn : new.node ≠ 0) (ht : new.term = true) :
+    decode (.podUpdate old new) = [.release new.node new.uid] ∧
+    findPod ((handle M (.podUpdate old new)).L new.node).pods new.uid = none ∧
+    (∀ m u, u ≠ new.uid → findPod ((handle M (.podUpdate old new)).L m).pods u = findPod (M.L m).pods u) := by
+  have hd : decode (.podUpdate old new) = [.release new.node new.uid] := by
+    simp [decode, decodeUpdate, decodeDelete, hn, ht]
+  have hh : handle M (.podUpdate old new) = M.apply (.release new.node new.uid) := by
+    show (decode (.podUpdate old new)).foldl Mgr.apply M = _
+    rw [hd]; rfl
+  refine ⟨hd, ?_, ?_⟩
+  · rw [hh]; simp [Mgr.apply, setL_L, findPod_releasePod]
+  · intro m u hu
+    rw [hh]
+    simp only [Mgr.apply, setL_L]
+    split
+    · rename_i hm; subst hm; rw [findPod_releasePod, if_neg hu]
+    · rfl
+
+/-- **topology arrives ⇒ re-recorded on the next update**: any update (also a pure status heartbeat, `old = new`) of a live
+    pod with a well-formed allocation that reaches the manager while the node's topology is valid records exactly the
+    annotation's allocation - so a pod dropped earlier by `Update` (no valid CPU topology yet) enters the ledger. -/
+theorem topology_late_rerecorded (M : Mgr) (old new : PodObj) (hn : new.node ≠ 0) (ht : new.term = false)
+    (ha : new.annOK = true) (hv : M.valid new.node = true) :
+    findPod ((handle M (.podUpdate old new)).L new.node).pods new.uid = some new.alloc := by
+  have hd : decode (.podUpdate old new) = [.update new.node new.alloc] := by
+    simp only [PodObj.annOK, Bool.and_eq_true, bne_iff_ne, ne_eq, Bool.or_eq_true, beq_iff_eq,
+      Bool.not_eq_eq_eq_not, Bool.not_true] at ha
+    obtain ⟨⟨⟨h1, h2⟩, h3⟩, h4⟩ := ha
+    have h3' : (decide (new.st = 2) && decide (new.cs ≠ 0)) = false := by
+      rcases h3 with h3 | h3
+      · simp [h3]
+      · simp [h3]
+    simp only [decode, decodeUpdate, if_neg hn, ht, Bool.false_eq_true, ↓reduceIte, if_neg h1, if_neg h2, h3', h4]
+  show findPod (((decode (.podUpdate old new)).foldl Mgr.apply M).L new.node).pods new.uid = _
+  rw [hd]
+  simp only [List.foldl_cons, List.foldl_nil, Mgr.apply, hv, ↓reduceIte, setL_L, findPod_updatePod]
+  simp [PodObj.alloc]
+
+/-- **ledger_eq_live_after_events**: for ALL well-formed informer histories (pod add / update / delete incl. tombstones and
+    re-lists, nodeName set late or cleared, malformed annotations, topology add / update / delete at any time, objects of
+    another type) over any number of cluster nodes:
+    (1) every pod recorded in the ledger of node `n` is live on `n` (delivered, no delete delivered, phase not
+        Succeeded / Failed, spec.nodeName = n);
+    (2) if the world is settled - every live pod that ever carried a well-formed allocation got its latest event while
+        its node's topology was valid and with a well-formed allocation - the ledger of `n` holds EXACTLY the
+        allocations written in the annotations of the pods live on `n`;
+    (3,4) RefCount(c) = number of recorded pods holding c and every NUMA cell = sum of the recorded pods' amounts.
+    Together: ledger == Σ allocations of the live pods.  `HistoryWF`: what an informer guarantees (see `EventWF`). -/
+theorem ledger_eq_live_after_events (evs : List Event) (hwf : HistoryWF (Mgr.empty, fun _ => none) evs) :
+    let M := runEvents evs
+    let W := (erun evs).2
+    (∀ n p, p ∈ (M.L n).pods → ∃ w, W p.uid = some w ∧ w.liveOn n) ∧
+    (Settled W → ∀ n p, p ∈ (M.L n).pods ↔
+        ∃ w, W p.uid = some w ∧ w.liveOn n ∧ w.everOK = true ∧ p = w.obj.alloc) ∧
+    (∀ n c, refOf (M.L n).cpus c = holdCount (M.L n).pods c) ∧
+    (∀ n k, getI (M.L n).res k = cellSum (M.L n).pods k) := by
+  intro M W
+  have h := einv_erun evs hwf
+  rw [erun_fst] at h
+  change EInv M W at h
+  refine ⟨?_, ?_, fun n c => (h.inv n).refs c, fun n k => (h.inv n).cells k⟩
+  · intro n p hp
+    obtain ⟨w, hw, hl, _⟩ := h.recL n p.uid p (findPod_of_mem (h.inv n).uids hp)
+    exact ⟨w, hw, hl⟩
+  · intro hs n p
+    constructor
+    · intro hp
+      have hf := findPod_of_mem (h.inv n).uids hp
+      obtain ⟨w, hw, hl, he⟩ := h.recL n p.uid p hf
+      have hfresh := hs p.uid w hw hl.1 hl.2.1 (by rw [hl.2.2.1]; exact hl.2.2.2) he
+      have := (h.frsh p.uid w hw hfresh).2
+      rw [hl.2.2.1, hf] at this
+      exact ⟨w, hw, hl, he, by cases this; rfl⟩
+    · rintro ⟨w, hw, hl, he, rfl⟩
+      have hu := h.uidk _ w hw
+      have hfresh := hs _ w hw hl.1 hl.2.1 (by rw [hl.2.2.1]; exact hl.2.2.2) he
+      have := (h.frsh _ w hw hfresh).2
+      rw [hl.2.2.1] at this
+      exact (findPod_some this).1
+
+
+-- non-vacuity: pod 1 (cpus {0,1}, 2000m on NUMA 0) is added on node 1 BEFORE the node's topology, the topology
+-- arrives, a status heartbeat re-records it; pod 2 is added and completes (phase -> Succeeded, nothing else changes).
+def exP1 : PodObj := { uid := 1, node := 1, term := false, st := 2, sp := 2, cs := 0, excl := 2, cpus := [0, 1], numa := [(0, 2000)] }
+def exP2 : PodObj := { uid := 2, node := 1, term := false, st := 2, sp := 0, cs := 0, excl := 0, cpus := [2], numa := [] }
+def exHist : List Event :=
+  [.podAdd exP1, .topo 1 true, .podUpdate exP1 exP1, .podAdd exP2, .podUpdate exP2 { exP2 with term := true }]
+
+example : ((runEvents (exHist.take 2)).L 1).pods = [] := by decide
+example : ((runEvents exHist).L 1).pods = [exP1.alloc] ∧ refOf ((runEvents exHist).L 1).cpus 2 = 0 ∧
+    refOf ((runEvents exHist).L 1).cpus 0 = 1 ∧ getI ((runEvents exHist).L 1).res 0 = 2000 := by decide
+
+example : HistoryWF (Mgr.empty, fun _ => none) exHist := by
+  simp [HistoryWF, EventWF, exHist, estep, track, deliver, delivered, handle, decode, decodeUpdate,
+    exP1, exP2, PodOK, PodObj.alloc, PodObj.statusNuma, PodObj.statusCpus]
+
+example : Settled (erun exHist).2 := by
+  intro u w hw hd ht hn he
+  simp only [erun, exHist, List.foldl_cons, List.foldl_nil, estep, track, deliver] at hw
+  by_cases h2 : u = 2
+  · subst h2
+    simp [exP2, exP1] at hw
+    subst hw
+    simp [delivered] at ht
+  · by_cases h1 : u = 1
+    · subst h1
+      simp [exP2, exP1] at hw
+      subst hw
+      simp [delivered, handle, decode, decodeUpdate, exP1, PodObj.annOK, PodObj.statusNuma, PodObj.statusCpus,
+        Mgr.apply, Mgr.empty]
+    · simp [exP2, exP1, h1, h2] at hw
+
+/-! ## First touch of a node name (round 3): get-or-create of the ledger object -/
+
+/-- **goc_no_lost_update**: getOrCreateNodeAllocation with a miss path that looks the name up inside the section that
+    stores (with or without a read-locked fast path), any number of goroutines, EVERY schedule: every object a
+    goroutine obtained and every pod record written is in the one object the map holds; a goroutine that finished has
+    its record there. -/
+theorem goc_no_lost_update (fast : Bool) (sched : List Nat) :
+    let s := grun fast true sched
+    (∀ i o, (s.th i).got = some o → s.map = some o) ∧
+    (∀ r ∈ s.recs, s.map = some r.1) ∧
+    (∀ i, (s.th i).pc = 3 → ∃ o, s.map = some o ∧ (o, i) ∈ s.recs) := by
+  intro s
+  have h := ginv_run fast sched
+  exact ⟨h.held, h.recs, h.done⟩
+
+/-- fast path + blind store: goroutines 0 and 1 both miss, 0 stores object 0 and records its pod there, 1 stores object
+    1 over it: the record of goroutine 0 is lost (its CPUs read as free). -/
+theorem goc_blind_store_counterexample :
+    ¬ (∀ r ∈ (grun true false [0, 1, 0, 0, 1, 1]).recs, (grun true false [0, 1, 0, 0, 1, 1]).map = some r.1) := by
+  decide
 
 end KoordVerif.C06
